@@ -7,6 +7,7 @@ schedule); whether `try_close` decides on the value returned by its own fetch_su
 -/
 import TracingModel.Props.C05R
 import TracingModel.Lemmas.AtomicCount
+import TracingModel.Lemmas.HandleRace
 
 namespace C05
 open TM.AtomicCount TM.Gen.AtomicCounts
@@ -30,5 +31,34 @@ theorem two_closers_witness :
     closers (run true false (fun _ => .dec) (start 2) [0, 1, 0, 1]) [0, 1] = 2 := by decide
 
 example : closers (run true closeDecidedByFetchSub (fun _ => .dec) (start 3) [2, 0, 1]) [0, 1, 2] = 1 := by decide
+
+/-! ### threads as programs: handles cloned, moved between threads and dropped, in any interleaving -/
+
+/-- **C05.closed_exactly_when_last_handle_goes** — the span created by thread `t0`; every thread runs its own program of
+clone / drop / give (a handle moved to another thread), legal only through handles it holds; every interleaving of the count
+operations as the code performs them: the span is reported closed at most once, and it HAS been reported closed exactly when no
+thread holds a handle any more — never while one is held, and not later than the last drop -/
+theorem closed_exactly_when_last_handle_goes (ths : List Nat) (hnd : ths.Nodup) (t0 : Nat) (h0 : t0 ∈ ths)
+    (sched : List (Nat × TM.HandleRace.Act)) (hs : TM.HandleRace.Within ths sched) :
+    let s := TM.HandleRace.run cloneIsRmw closeDecidedByFetchSub (TM.HandleRace.start t0) sched
+    s.closes ≤ 1 ∧ (s.closes = 1 ↔ ∀ t ∈ ths, s.held t = 0) := by
+  rw [close_decision_code_fact, show cloneIsRmw = true by decide]
+  exact TM.HandleRace.closed_iff_no_handles ths _ (TM.HandleRace.run_inv ths hnd sched hs _ (TM.HandleRace.inv_start ths hnd t0 h0))
+
+/-- **C05.closed_under_a_handle_witness** — with a non-atomic clone: two threads clone together (one reference is lost), three
+drops later the span is reported closed while a thread still holds a handle -/
+theorem closed_under_a_handle_witness :
+    let s := TM.HandleRace.run false true (TM.HandleRace.start 0)
+      [(0, .clone), (0, .step), (0, .give 1), (0, .clone), (1, .clone), (0, .step), (1, .step), (0, .drop), (0, .drop), (1, .drop)]
+    s.closes = 1 ∧ s.held 1 = 1 := by decide
+
+/-- **C05.closed_twice_witness** — with the close decided by a separate load: the last two handles dropped together, both
+drops report the span closed -/
+theorem closed_twice_witness :
+    (TM.HandleRace.run true false (TM.HandleRace.start 0) [(0, .clone), (0, .give 1), (0, .drop), (1, .drop), (0, .step), (1, .step)]).closes = 2 := by
+  decide
+
+example : (TM.HandleRace.run cloneIsRmw closeDecidedByFetchSub (TM.HandleRace.start 0)
+    [(0, .clone), (0, .give 1), (1, .clone), (0, .drop), (1, .drop), (1, .drop)]).closes = 1 := by decide
 
 end C05
